@@ -201,14 +201,15 @@ func (m *multiExecutor) groupParsersByTableName(parseContext *types.ParseContext
 		if err != nil {
 			return nil, err
 		}
-		// one group per table, however the statements spell it: t, T, `t`, db.t, t AS a
+		// one group per table, however the statements spell it: t, T, `t`, db.t, t AS a. (A statement over several
+		// tables keeps its whole reference as its key: the table-meta lookup of its group refuses it.)
+		if schema, name, single := parser.GetSingleTable(); single {
+			tableName = name
+			if schema != "" && (m.execContext == nil || !strings.EqualFold(schema, m.execContext.DBName)) {
+				tableName = schema + "." + name
+			}
+		}
 		tableName = strings.ToLower(strings.ReplaceAll(tableName, "`", ""))
-		if blank := strings.IndexByte(tableName, ' '); blank >= 0 {
-			tableName = tableName[:blank]
-		}
-		if m.execContext != nil && m.execContext.DBName != "" {
-			tableName = strings.TrimPrefix(tableName, strings.ToLower(m.execContext.DBName)+".")
-		}
 
 		if stmtList, ok := tableParsers[tableName]; ok {
 			if stmtList.ExecutorType != parser.ExecutorType {
@@ -229,26 +230,65 @@ func (m *multiExecutor) groupParsersByTableName(parseContext *types.ParseContext
 	return tableParsers, err
 }
 
-// columnQualifiers takes the table (and database) qualifiers off the column names of an expression and can put
-// them back. The statements of one group are about one table and may name it differently - t, db.t, t AS a -; the
-// image query that joins their conditions names it once.
+// columnQualifiers takes the qualifiers that name the statement's own table off the column names of a condition
+// and can put them back. The statements of one group are about one table and may name it differently - t, db.t,
+// t AS a -; the image query that joins their conditions names it once. Columns of other tables (in a sub-query)
+// keep their qualifiers; a reference to the statement's table from inside a sub-query gets the name the image
+// query knows the table by.
 type columnQualifiers struct {
+	own     map[string]bool // the names the statement knows its table by: its name, its alias (lower case)
+	target  model.CIStr     // the name the image query knows the table by
+	depth   int             // sub-queries entered
 	columns []*ast.ColumnName
 	tables  []model.CIStr
 	schemas []model.CIStr
 }
 
+// tableNames are the names a single-table reference can be addressed by, and the one a query that uses the
+// reference must use (the alias when there is one)
+func tableNames(refs *ast.TableRefsClause) (names map[string]bool, address model.CIStr) {
+	names = map[string]bool{}
+	if refs == nil || refs.TableRefs == nil {
+		return names, address
+	}
+	source, ok := refs.TableRefs.Left.(*ast.TableSource)
+	if !ok {
+		return names, address
+	}
+	if table, ok := source.Source.(*ast.TableName); ok {
+		names[table.Name.L] = true
+		address = table.Name
+	}
+	if source.AsName.L != "" {
+		names[source.AsName.L] = true
+		address = source.AsName
+	}
+	return names, address
+}
+
 func (q *columnQualifiers) Enter(n ast.Node) (ast.Node, bool) {
-	if column, ok := n.(*ast.ColumnName); ok && (column.Table.O != "" || column.Schema.O != "") {
-		q.columns = append(q.columns, column)
-		q.tables = append(q.tables, column.Table)
-		q.schemas = append(q.schemas, column.Schema)
-		column.Table, column.Schema = model.CIStr{}, model.CIStr{}
+	switch node := n.(type) {
+	case *ast.SubqueryExpr:
+		q.depth++
+	case *ast.ColumnName:
+		if node.Table.O != "" && q.own[node.Table.L] {
+			q.columns = append(q.columns, node)
+			q.tables = append(q.tables, node.Table)
+			q.schemas = append(q.schemas, node.Schema)
+			if q.depth == 0 {
+				node.Table, node.Schema = model.CIStr{}, model.CIStr{}
+			} else {
+				node.Table, node.Schema = q.target, model.CIStr{}
+			}
+		}
 	}
 	return n, false
 }
 
 func (q *columnQualifiers) Leave(n ast.Node) (ast.Node, bool) {
+	if _, ok := n.(*ast.SubqueryExpr); ok {
+		q.depth--
+	}
 	return n, true
 }
 
@@ -258,9 +298,12 @@ func (q *columnQualifiers) putBack() {
 	}
 }
 
-// restoreUnqualified writes a condition with its column names unqualified
-func restoreUnqualified(where ast.ExprNode, ctx *format.RestoreCtx) error {
-	q := &columnQualifiers{}
+// restoreUnqualified writes the condition of a statement on the table own for an image query that names the
+// table as in target
+func restoreUnqualified(where ast.ExprNode, own, target *ast.TableRefsClause, ctx *format.RestoreCtx) error {
+	names, _ := tableNames(own)
+	_, address := tableNames(target)
+	q := &columnQualifiers{own: names, target: address}
 	where.Accept(q)
 	defer q.putBack()
 	return where.Restore(ctx)
